@@ -168,7 +168,7 @@ func (i *inspect) addIndexes(t *schema.Table, rows *sql.Rows) error {
 
 var (
 	// A regexp to extract index parts.
-	reIdxParts = regexp.MustCompile("(?i)ON\\s+[\"`]*(?:\\w+)[\"`]*\\s*\\((.+?)\\)(\\s*WHERE\\s+.+)?$")
+	reIdxParts = regexp.MustCompile("(?i)ON\\s+[\"`\\[]*(?:\\w+)[\"`\\]]*\\s*\\((.+?)\\)(\\s*WHERE\\s+.+)?$")
 	reIdxDesc  = regexp.MustCompile("(?i)\\s+DESC\\s*$")
 )
 
@@ -479,7 +479,7 @@ func isBlob(s string) bool {
 	return false
 }
 
-var reAutoinc = regexp.MustCompile("(?i)(?:[(,]\\s*)[\"`]?(\\w+)[\"`]?\\s+INTEGER\\s+[^,]*PRIMARY\\s+KEY\\s+[^,]*AUTOINCREMENT")
+var reAutoinc = regexp.MustCompile("(?i)(?:[(,]\\s*)[\"`\\[]?(\\w+)[\"`\\]]?\\s+INTEGER\\s+[^,]*PRIMARY\\s+KEY\\s+[^,]*AUTOINCREMENT")
 
 // autoinc checks if the table contains a "PRIMARY KEY AUTOINCREMENT" on its
 // CREATE statement, according to https://www.sqlite.org/syntax/column-constraint.html.
@@ -517,7 +517,7 @@ func setGenExpr(t *schema.Table, c *schema.Column, f int64) error {
 	if !sqlx.Has(t.Attrs, &s) {
 		return fmt.Errorf("missing CREATE statement for table: %q", t.Name)
 	}
-	re, err := regexp.Compile(fmt.Sprintf("(?:[(,]\\s*)[\"`]*(%s)[\"`]*[^,]*(?i:GENERATED\\s+ALWAYS)*\\s*(?i:AS){1}\\s*\\(", c.Name))
+	re, err := regexp.Compile(fmt.Sprintf("(?:[(,]\\s*)[\"`\\[]*(%s)[\"`\\]]*[^,]*(?i:GENERATED\\s+ALWAYS)*\\s*(?i:AS){1}\\s*\\(", c.Name))
 	if err != nil {
 		return err
 	}
@@ -540,9 +540,9 @@ func setGenExpr(t *schema.Table, c *schema.Column, f int64) error {
 // The following regexes extract named FKs and CHECK constraints defined in table-constraints or inlined
 // as column-constraints. Note, we assume the SQL statements are valid as they are returned by SQLite.
 var (
-	reFKC   = regexp.MustCompile("(?i)(?:[(,]\\s*)[\"`]*(\\w+)[\"`]*[^,]*\\s+CONSTRAINT\\s+[\"`]*(\\w+)[\"`]*\\s+REFERENCES\\s+[\"`]*(\\w+)[\"`]*\\s*\\(([,\"` \\w]+)\\)")
-	reFKT   = regexp.MustCompile("(?i)CONSTRAINT\\s+[\"`]*(\\w+)[\"`]*\\s+FOREIGN\\s+KEY\\s*\\(([,\"` \\w]+)\\)\\s+REFERENCES\\s+[\"`]*(\\w+)[\"`]*\\s*\\(([,\"` \\w]+)\\)")
-	reCheck = regexp.MustCompile("(?i)(?:CONSTRAINT\\s+[\"`]?(\\w+)[\"`]?\\s+)?CHECK\\s*\\(")
+	reFKC   = regexp.MustCompile("(?i)(?:[(,]\\s*)[\"`\\[]*(\\w+)[\"`\\]]*[^,]*\\s+CONSTRAINT\\s+[\"`\\[]*(\\w+)[\"`\\]]*\\s+REFERENCES\\s+[\"`\\[]*(\\w+)[\"`\\]]*\\s*\\(([,\"`\\[\\] \\w]+)\\)")
+	reFKT   = regexp.MustCompile("(?i)CONSTRAINT\\s+[\"`\\[]*(\\w+)[\"`\\]]*\\s+FOREIGN\\s+KEY\\s*\\(([,\"`\\[\\] \\w]+)\\)\\s+REFERENCES\\s+[\"`\\[]*(\\w+)[\"`\\]]*\\s*\\(([,\"`\\[\\] \\w]+)\\)")
+	reCheck = regexp.MustCompile("(?i)(?:CONSTRAINT\\s+[\"`\\[]?(\\w+)[\"`\\]]?\\s+)?CHECK\\s*\\(")
 )
 
 // fillConstName fills foreign-key constrain names from CREATE TABLE statement.
@@ -586,7 +586,7 @@ func fillConstName(t *schema.Table) error {
 func columns(s string) []string {
 	names := strings.Split(s, ",")
 	for i := range names {
-		names[i] = strings.Trim(strings.TrimSpace(names[i]), "`\"")
+		names[i] = strings.Trim(strings.TrimSpace(names[i]), "`\"[]")
 	}
 	return names
 }
